@@ -152,3 +152,43 @@ def run(ctx):
         ctx.oblige(not bad and flushes, "C15.5", "commit:root-update#%d-not-flushed" % k,
                    "an index root moved in memory can reach the commit record without the catalog page being rewritten: after reopen the catalog "
                    "names the pre-split root and equality lookups return a strict subset", "%s:%d" % (cb.file, line))
+
+    # ---- clause 6: "the index has nothing" must reach the scan fallback ------------------------------------------
+    # execute_index_seek falls back to a label scan when lookup_index answers None.  Because indexes are not back-filled and not maintained
+    # on every change (C15.1 / C15.2, known findings), "no entry in the index" does not mean "no matching node": the fallback is what keeps
+    # query results equal with and without the index in those cases.  So lookup_index may answer Some(list) only for a non-empty list.
+    from ..mirutil import switch_on as _sw, peel_refs as _pr
+    ctx.rule("C15.6", "GraphSnapshot::lookup_index returns Some(results) only on a path where results was tested non-empty (an empty answer must be None so that the seek falls back to a scan)")
+    n6 = 0
+    for ty in ("nervusdb_storage::api::StorageSnapshot",):
+        fid = F.impl_method("nervusdb_api::GraphSnapshot", ty, "lookup_index")
+        lb = ctx.body(fid or (ty + "::lookup_index"))
+        for bi, blk in enumerate(lb.blocks):
+            for st in blk["s"]:
+                if not (st[0] == "a" and st[1][0] == 0 and not st[1][1] and st[2][0] == "agg" and st[2][2] == "core::option::Option" and st[2][3] == "Some"):
+                    continue
+                n6 += 1
+                rl = op_local(st[2][4][0]) if st[2][4] else None
+                from ..mirutil import value_root as _vr
+                rl = _vr(lb, rl) if rl is not None else None  # `Some(move results)` goes through a temporary
+                ok = False
+                for c in lb.calls():
+                    if not c.name.endswith("::is_empty") or c.target is None or not c.args:
+                        continue
+                    al = op_local(c.args[0])
+                    if al is None or _pr(lb, al) != rl:
+                        continue
+                    sw = _sw(lb, c.target)
+                    if not sw:
+                        continue
+                    t_false = [tb for v, tb in sw[2] if v == 0]
+                    t_true = sw[3]
+                    if sw[1]:
+                        t_true, t_false = (t_false[0] if t_false else None), [t_true]
+                    if lb.dominates(c.bb, bi) and t_true is not None and bi not in lb.reachable([t_true]):
+                        ok = True
+                ctx.instance("C15.6", "%s: `Some(results)` at line %d guarded by a non-empty test=%s" % (ty.split("::")[-1], st[3], ok))
+                ctx.oblige(ok, "C15.6", "%s:lookup_index:some-without-nonempty-test#%d" % (ty.split("::")[-1], n6 - 1),
+                           "lookup_index can answer Some(empty list): the index seek then returns no rows instead of falling back to the scan, although nodes the "
+                           "index does not (yet) contain match", "%s:%d" % (lb.file, st[3]))
+    ctx.floor("C15.6", "Some(..) returns of lookup_index", n6, 1)
